@@ -33,6 +33,11 @@ pub enum Case {
     HistoryShared { spec: FileSpec, ops: Vec<Op> },
     /// history over a reader that itself uses grenad (compressed files) inside every read and seek
     HistoryReentrant { spec: FileSpec, ops: Vec<Op> },
+    /// history during which ONE read or seek of the source fails (the `k`-th after opening); the failing call and later
+    /// calls may return errors, but every call that returns Ok is judged as usual ("first, last and seeks are
+    /// unaffected by anything done before them" — a failed call included); on the V2 or the V1 encoding
+    #[serde(rename = "AfterFault")]
+    AfterFault { spec: FileSpec, v1: bool, ops: Vec<Op>, k: u16, on_seek: bool },
 }
 
 pub fn deep_conf() -> BoxedStrategy<WConf> {
@@ -327,6 +332,103 @@ pub fn run_history_on<R: std::io::Read + std::io::Seek + Clone>(
     Ok((crossed_then_abs, judged))
 }
 
+/// One operation on a real cursor, errors returned as values (panics caught by the caller).
+fn apply_raw<R: std::io::Read + std::io::Seek>(c: &mut grenad::ReaderCursor<R>, op: &COp) -> Result<Option<(Vec<u8>, Vec<u8>)>, grenad::Error> {
+    match op {
+        COp::First => c.move_on_first().map(rd::own),
+        COp::Last => c.move_on_last().map(rd::own),
+        COp::Next => c.move_on_next().map(rd::own),
+        COp::Prev => c.move_on_prev().map(rd::own),
+        COp::Ge(q) => c.move_on_key_greater_than_or_equal_to(q).map(rd::own),
+        COp::Le(q) => c.move_on_key_lower_than_or_equal_to(q).map(rd::own),
+        COp::Eq(q) => c.move_on_key_equal_to(q).map(rd::own),
+        COp::Reset => {
+            c.reset();
+            Ok(None)
+        }
+    }
+}
+
+/// A history during which the `k`-th read (or seek) issued after opening fails once. An `Err` is accepted from the
+/// failing call and from any later call (a cursor may refuse to work after a failure; C12 judges the failing call
+/// itself) and makes the model position undefined; before the fault no error is accepted; every `Ok` result is judged
+/// by the position machine exactly as in a fault-free history. Returns (fault fired, results judged after it fired).
+pub fn run_after_fault(bytes: &[u8], entries: &Entries, ops: &[Op], k: u64, on_seek: bool) -> Check<(bool, u64)> {
+    use crate::ioinstr::{self, ErrKind, FaultPlan, Kind};
+    let ctl = ioinstr::ctl();
+    let src = ioinstr::Source::new(std::rc::Rc::new(bytes.to_vec()), ctl.clone());
+    let reader = rd::guard("Reader::new", || grenad::Reader::new(src))?;
+    let mut c = rd::guard("into_cursor", || reader.into_cursor())?;
+    let kind = if on_seek { Kind::Seek } else { Kind::Read };
+    {
+        let mut g = ctl.borrow_mut();
+        let base = g.counts[kind.idx()];
+        g.fault = Some(FaultPlan { kind, k: base + k, err: ErrKind::Other });
+    }
+    let m = Model::new(entries);
+    let n = entries.len();
+    let mut pos = Pos::Fresh;
+    let mut trace: Vec<String> = Vec::new();
+    let mut judged_after = 0u64;
+    for op in ops {
+        let cop = match op {
+            Op::First => COp::First,
+            Op::Last => COp::Last,
+            Op::Next => COp::Next,
+            Op::Prev => COp::Prev,
+            Op::Ge(p) => COp::Ge(p.bytes(entries)),
+            Op::Le(p) => COp::Le(p.bytes(entries)),
+            Op::Eq(p) => COp::Eq(p.bytes(entries)),
+            Op::Reset => COp::Reset,
+            Op::Current | Op::CloneSwitch | Op::Swap => continue,
+        };
+        let r = crate::common::catch(|| apply_raw(&mut c, &cop));
+        let fired = ctl.borrow().fired;
+        let got = match r {
+            Err(p) => fail!(format!("c03:{}", crate::common::panic_sig(&p)), "after [{}] {} panicked: {}", trace.join(", "), cop.show(), p),
+            Ok(Err(e)) => {
+                ensure!(fired, "c03:err", "after [{}] {} failed although no component had failed: {:?}", trace.join(", "), cop.show(), e);
+                trace.push(format!("{} -> Err", cop.show()));
+                pos = Pos::Undefined;
+                continue;
+            }
+            Ok(Ok(g)) => g,
+        };
+        trace.push(cop.show());
+        if trace.len() > 40 {
+            trace.remove(0);
+        }
+        let (expect, newpos) = match &cop {
+            COp::Reset => (Expect::Nothing, Pos::Fresh),
+            COp::Next => step_rel(n, pos, true),
+            COp::Prev => step_rel(n, pos, false),
+            abs => {
+                let r = rd::model_abs(&m, abs);
+                (Expect::Entry(r), r.map_or(Pos::Undefined, Pos::At))
+            }
+        };
+        if let Expect::Entry(want) = expect {
+            let want_e = want.map(|i| entries[i].clone());
+            if fired {
+                judged_after += 1;
+            }
+            ensure!(
+                got == want_e,
+                if cop.is_abs() { "c03:abs" } else { "c03:rel" },
+                "history [{}] on {} entries ({}): last operation returned Ok({}) but the content determines {}",
+                trace.join(", "),
+                n,
+                if fired { "one source call had failed earlier" } else { "no failure yet" },
+                rd::show(&got),
+                rd::show(&want_e)
+            );
+        }
+        pos = newpos;
+    }
+    let fired = ctl.borrow().fired;
+    Ok((fired, judged_after))
+}
+
 /// for every entry, the deepest-level index block referencing its data block
 pub fn leaf_map(d: &fmtdec::Decoded) -> Vec<usize> {
     d.entry_block.iter().map(|b| d.blocks[*b].parent.unwrap_or(usize::MAX)).collect()
@@ -377,6 +479,13 @@ impl Prop for C03 {
                 tier.pick(1200, 15_000),
             )
             .shrink(100),
+            stage(
+                "after-fault",
+                (prop_oneof![2 => gen::file_spec_light(tier), 1 => explore_case(40)], any::<bool>(), gen::history(80), prop_oneof![3 => 0u16..12, 2 => 12u16..60, 1 => 60u16..300], any::<bool>())
+                    .prop_map(|(spec, v1, ops, k, on_seek)| Case::AfterFault { spec, v1, ops, k, on_seek }),
+                tier.pick(2400, 30_000),
+            )
+            .shrink(400),
         ]
     }
 
@@ -391,7 +500,7 @@ impl Prop for C03 {
     }
 
     fn health(&self, tier: Tier) -> Vec<(&'static str, u64)> {
-        vec![("explore:nontrivial", tier.pick(20, 600)), ("history:crossed-then-abs", tier.pick(100, 3000)), ("v1:multi-block", tier.pick(100, 3000)), ("shared:clone-and-swap", tier.pick(300, 4000)), ("reentrant:compressed", tier.pick(150, 2000))]
+        vec![("explore:nontrivial", tier.pick(20, 600)), ("history:crossed-then-abs", tier.pick(100, 3000)), ("v1:multi-block", tier.pick(100, 3000)), ("after-fault:abs-judged", tier.pick(300, 4000)), ("shared:clone-and-swap", tier.pick(300, 4000)), ("reentrant:compressed", tier.pick(150, 2000))]
     }
 
     fn assumptions(&self) -> Vec<String> {
@@ -435,6 +544,29 @@ impl Prop for C03 {
                     obs.class("v1:multi-block");
                 }
                 obs.sample = Some(json!({"kind": "v1", "conf": spec.conf.label(), "entries": entries.len(), "data_blocks": nd}));
+                Ok(())
+            }
+            Case::AfterFault { spec, v1, ops, k, on_seek } => {
+                let mut spec = spec.clone();
+                if *v1 {
+                    spec.conf.levels = 0;
+                }
+                let entries = spec.src.entries();
+                let mut bytes = write_file(&spec.conf, &entries)?;
+                if *v1 {
+                    bytes = crate::props::c10::to_v1(&bytes).map_err(|e| Fail::new("c03:harness", e))?;
+                }
+                let (fired, judged_after) = run_after_fault(&bytes, &entries, ops, *k as u64, *on_seek)
+                    .map_err(|f| Fail::new(format!("{}:after-fault", f.signature), format!("{} encoding, one injected {} failure: {}", if *v1 { "version-1" } else { "version-2" }, if *on_seek { "seek" } else { "read" }, f.msg)))?;
+                obs.nontrivial = fired && judged_after >= 1;
+                if obs.nontrivial {
+                    obs.class("after-fault:abs-judged");
+                }
+                if fired {
+                    obs.class(if *v1 { "after-fault:v1" } else { "after-fault:v2" });
+                }
+                obs.add("after_fault_judged", judged_after);
+                obs.sample = Some(json!({"kind": "after-fault", "v1": v1, "conf": spec.conf.label(), "entries": entries.len(), "ops": ops.len(), "k": k, "on_seek": on_seek, "fired": fired, "judged_after_fault": judged_after}));
                 Ok(())
             }
             Case::HistoryShared { spec, ops } => {
